@@ -279,6 +279,6 @@ MUTANTS = [
     M("c13.1-level", "C13", "C13.1", FFF, "self.level.eq(self.level + self.write - self.read),", "self.level.eq(self.level + self.write),"),
     M("c13.1-addr", "C13", "C13.1", FFF, "reader.sink.address.eq(ctrl.base + ctrl.read_address),", "reader.sink.address.eq(ctrl.base + ctrl.write_address),"),
     M("c13.1-readable", "C13", "C13.1", FFF, "reader.sink.valid.eq(ctrl.readable),", "reader.sink.valid.eq(1),"),
-    M("c13.3-bypass-state", "C13", "C13.3", FFF, '            fsm.act("DRAM",\n                dram_store.eq(1),', '            fsm.act("DRAM",\n                dram_store.eq(1),\n                dram_bypass.eq(dram_first),'),
+    M("c13.3-bypass-state", "C13", "C13.3", FFF, "                # Store in DRAM.\n                dram_store.eq(1),", "                # Store in DRAM.\n                dram_store.eq(1),\n                dram_bypass.eq(dram_first),"),
     M("c13.3-both-sources", "C13", "C13.3", FFF, "                post_converter.source.connect(post_fifo.sink)\n            ),", "            ),\n            post_converter.source.connect(post_fifo.sink),"),
 ]
